@@ -48,22 +48,44 @@ finally:
 a, b, c = result.get("suite_with_patch", {}), result.get("suite_with_patch_and_demo", {}), result.get("suite_with_demo_only", {})
 result["confirmed"] = bool(a.get("compiled") and a.get("failed") == 0 and a.get("passed", 0) >= 367
                            and b.get("failed", 0) > 0 and c.get("compiled") and c.get("failed") == 0)
-# run our checks against the change
+# run our checks against the change.  Default: a private copy of /repo (git worktree + patch) and a private build
+# of the harness against it, passed to ./check through VERIF_VH — /repo itself is not touched, so evaluations
+# do not block other work.  --in-repo applies the patch to /repo itself instead (the official procedure).
 if result["confirmed"] or "--force" in sys.argv:
-    rc, out = sh("git -C /repo status --short")
-    if out.strip():
-        print("refusing: /repo is not clean:\n" + out)
-        sys.exit(2)
-    rc, out = sh(f"git -C /repo apply {src}/patch.diff")
-    try:
-        result["checks"] = {}
-        for c in checks:
-            t = time.time()
-            rc, out = sh(f"./check {c} --tier quick", "/verif", timeout=2400, use_env=False)
-            result["checks"][c] = {"exit": rc, "violations": re.findall(r"^VIOLATION .*", out, re.M)[:5],
-                                   "wall_s": round(time.time() - t), "tail": out[-600:] if rc not in (0, 1) else ""}
-    finally:
-        sh("git -C /repo checkout -- .")
+    result["checks"] = {}
+    if "--in-repo" in sys.argv:
+        rc, out = sh("git -C /repo status --short")
+        if out.strip():
+            print("refusing: /repo is not clean:\n" + out)
+            sys.exit(2)
+        rc, out = sh(f"git -C /repo apply {src}/patch.diff")
+        try:
+            for c in checks:
+                t = time.time()
+                rc, out = sh(f"./check {c} --tier quick", "/verif", timeout=3600, use_env=False)
+                result["checks"][c] = {"exit": rc, "violations": re.findall(r"^VIOLATION .*", out, re.M)[:5],
+                                       "wall_s": round(time.time() - t), "tail": out[-600:] if rc not in (0, 1) else ""}
+        finally:
+            sh("git -C /repo checkout -- .")
+        result["mode"] = "patch applied to /repo"
+    else:
+        S = f"/tmp/seedeval-sbx-{pid}-{n}"
+        sh(f"git -C /repo worktree remove --force {S}/repo; rm -rf {S}; mkdir -p {S}")
+        sh(f"git -C /repo worktree add --detach {S}/repo HEAD")
+        rc, out = sh(f"git apply {src}/patch.diff", f"{S}/repo")
+        sh(f"rsync -a --exclude target /verif/harness/ {S}/harness/ && sed -i 's|/repo/crates|{S}/repo/crates|g' {S}/harness/Cargo.toml")
+        rc, out = sh(f"CARGO_TARGET_DIR=/tmp/seedeval-htarget cargo build --release --offline 2>&1 | tail -3", f"{S}/harness", use_env=False)
+        sh(f"cp /tmp/seedeval-htarget/release/vh {S}/vh")
+        try:
+            for c in checks:
+                t = time.time()
+                std = f"VERIF_STD_DIR={S}/repo/std " if os.path.exists(f"{S}/repo/std") else ""
+                rc, out = sh(f"{std}VERIF_VH={S}/vh ./check {c} --tier quick", "/verif", timeout=3600, use_env=False)
+                result["checks"][c] = {"exit": rc, "violations": re.findall(r"^VIOLATION .*", out, re.M)[:5],
+                                       "wall_s": round(time.time() - t), "tail": out[-600:] if rc not in (0, 1) else ""}
+        finally:
+            sh(f"git -C /repo worktree remove --force {S}/repo; rm -rf {S}")
+        result["mode"] = "private worktree + harness build (VERIF_VH)"
     result["caught"] = any(v["exit"] == 1 for v in result["checks"].values())
 dst = f"/verif/seeded/{pid}-{n}"
 os.makedirs(dst, exist_ok=True)
